@@ -34,12 +34,12 @@ pub fn handle_cfg() -> BoxedStrategy<Cfg> {
     cfg_strategy(1)
 }
 
-fn read_case() -> impl Strategy<Value = ReadCase> {
+pub fn read_case() -> impl Strategy<Value = ReadCase> {
     (handle_cfg(), prop_oneof![4 => Just(None), 1 => any::<u16>().prop_map(Some)], data_strategy(), any::<bool>(), proptest::collection::vec(rop_strategy(), 0..30))
         .prop_map(|(cfg, embedded, content, in_lower, script)| ReadCase { cfg, embedded, content, in_lower, script })
 }
 
-fn write_case() -> impl Strategy<Value = WriteCase> {
+pub fn write_case() -> impl Strategy<Value = WriteCase> {
     (handle_cfg(), data_strategy(), any::<bool>(), any::<bool>(), proptest::collection::vec(wop_strategy(), 0..20))
         .prop_map(|(cfg, initial, append, in_lower, script)| WriteCase { cfg, initial, append, in_lower, script })
 }
@@ -64,7 +64,7 @@ fn place(cfg: &Cfg, bytes: &crate::model::Bytes, in_lower: bool) -> Result<Built
     build(cfg, &prepop)
 }
 
-fn test_read(case: &ReadCase, st: &mut Stats, counting: bool) -> CaseResult {
+pub fn test_read(case: &ReadCase, st: &mut Stats, counting: bool) -> CaseResult {
     let mk_fail = |msg: String, trace: &[String]| Failure {
         message: format!("read handle on {}: {}\n  script trace:\n    {}", if case.embedded.is_some() { "EmbeddedFS".to_string() } else { case.cfg.render() }, msg, trace.join("\n    ")),
         replay: json!({"kind": "c14-read", "cfg": case.cfg.to_json(), "embedded": case.embedded, "content": crate::hist::data_to_json(&case.content), "in_lower": case.in_lower, "script": rops_to_json(&case.script)}),
@@ -117,7 +117,7 @@ fn fresh_read(root: &VfsPath) -> Result<Vec<u8>, String> {
     Ok(v)
 }
 
-fn test_write(case: &WriteCase, st: &mut Stats, counting: bool) -> CaseResult {
+pub fn test_write(case: &WriteCase, st: &mut Stats, counting: bool) -> CaseResult {
     let mk_fail = |msg: String, trace: &[String]| Failure {
         message: format!("{} handle on {}: {}\n  script trace:\n    {}", if case.append { "append" } else { "create" }, case.cfg.render(), msg, trace.join("\n    ")),
         replay: json!({"kind": "c14-write", "cfg": case.cfg.to_json(), "initial": crate::hist::data_to_json(&case.initial), "append": case.append, "in_lower": case.in_lower, "script": wops_to_json(&case.script)}),
